@@ -68,6 +68,8 @@ type world struct {
 	track   []util.Uint160 // accounts whose GAS/NEO balances are compared around every transaction
 	desig   util.Uint160
 	mgmt    util.Uint160
+	v       int                       // validators when fewer than the committee (0: all members are validators)
+	tag     string                    // "6" or "6/4": committee[/validators] as written on op lines
 	pending [][3]string               // monitor hits of the current cell (reported after the op line is recorded)
 	short   map[string]neotest.Signer // accounts one signature short of the documented ones: C- = (n/2)-of-n committee, A- = (2n/3)-of-n committee, IRM- / IRA- likewise over the role keys
 }
@@ -122,7 +124,13 @@ func dedupe(signers []neotest.Signer) []neotest.Signer {
 // god is the signer set of set-up transactions: every privileged account plus the given keys, so that
 // a misplaced guard in the repository under test does not stop the set-up.
 func (w *world) god(extra ...neotest.Signer) []neotest.Signer {
-	return dedupe(append([]neotest.Signer{w.c.Alpha, w.c.Cmt, w.ira, w.irm}, extra...))
+	all := []neotest.Signer{w.c.Alpha, w.c.Cmt, w.ira, w.irm}
+	for _, a := range []string{"V", "VA", "VC"} { // committee larger than the validator set: the validators' accounts too
+		if s := w.short[a]; s != nil {
+			all = append(all, s)
+		}
+	}
+	return dedupe(append(all, extra...))
 }
 
 // invoke executes one transaction (fees paid by Payer with scope None, signers with Global scope).
@@ -137,7 +145,7 @@ func (w *world) must(signers []neotest.Signer, h util.Uint160, method string, ar
 	r := w.invoke(signers, h, method, args...)
 	if !r.Halt {
 		w.run.Count("note.setup-fault." + w.nameOf(h) + "." + method)
-		w.t.Logf("set-up transaction %s.%s faulted (n=%d): %s", w.nameOf(h), method, w.n, r.Fault)
+		w.t.Logf("set-up transaction %s.%s faulted (n=%s): %s", w.nameOf(h), method, w.tag, r.Fault)
 	}
 	return r
 }
@@ -207,7 +215,7 @@ func (w *world) deploy(name, src string, ct *neotest.Contract, sender neotest.Si
 	require.NoError(w.t, err)
 	r := w.c.Exec(w.rawTx(append([]neotest.Signer{sender}, extra...), script, 100_0000_0000))[0]
 	if !r.Halt {
-		w.t.Fatalf("deployment of %s faulted (n=%d): %s", name, w.n, r.Fault)
+		w.t.Fatalf("deployment of %s faulted (n=%s): %s", name, w.tag, r.Fault)
 	}
 	if w.c.BC.GetContractState(ct.Hash) == nil {
 		w.t.Fatalf("deployment of %s: contract hash mismatch", name)
@@ -281,9 +289,20 @@ func pubsAny(ss []neotest.SingleSigner) []any {
 	return out
 }
 
-func newWorld(t testing.TB, run *hx.Run, n int) *world {
-	c := chainx.New(t, n)
-	w := &world{t: t, run: run, c: c, n: n, h: map[string]util.Uint160{}, src: map[string]string{}, man: map[string]*manifest.Manifest{},
+// newWorld deploys the system on a chain with an n-member committee. v = number of consensus nodes when the committee is
+// LARGER than the validator set (chainx.NewCV: neo.GetCommittee() has n keys, neo.GetNextBlockValidators() only the
+// first v of them; Alphabet and committee accounts are over the whole committee); v = 0: every member is a validator.
+func newWorld(t testing.TB, run *hx.Run, n, v int) *world {
+	var c *chainx.Chain
+	tag := fmt.Sprint(n)
+	if v > 0 && v < n {
+		c = chainx.NewCV(t, n, v)
+		tag = fmt.Sprintf("%d/%d", n, v)
+	} else {
+		v = 0
+		c = chainx.New(t, n)
+	}
+	w := &world{t: t, run: run, c: c, n: n, v: v, tag: tag, h: map[string]util.Uint160{}, src: map[string]string{}, man: map[string]*manifest.Manifest{},
 		users: map[string]neotest.SingleSigner{}}
 	w.desig = c.E.NativeHash(t, nativenames.Designation)
 	w.mgmt = c.BC.ManagementContractHash()
@@ -311,6 +330,21 @@ func newWorld(t testing.TB, run *hx.Run, n int) *world {
 			w.track = append(w.track, s.ScriptHash())
 		}
 	}
+	if w.v > 0 {
+		// accounts over the VALIDATORS only: the block signer, and what 2k/3+1 / k/2+1 give when they are computed
+		// over neo.GetNextBlockValidators() instead of neo.GetCommittee(); none of them is the Alphabet or the committee
+		// account, all must be refused everywhere
+		var vacc []*wallet.Account
+		for _, m := range c.Members[:w.v] {
+			vacc = append(vacc, m.Account())
+		}
+		w.short["V"] = c.ValidatorsSigner()
+		w.short["VA"] = chainx.AccessMultisig(vacc, w.v*2/3+1)
+		w.short["VC"] = chainx.AccessMultisig(vacc, w.v/2+1)
+		for _, a := range []string{"V", "VA", "VC"} {
+			w.track = append(w.track, w.short[a].ScriptHash())
+		}
+	}
 	w.must([]neotest.Signer{c.Cmt}, w.desig, "designateAsRole", int64(noderoles.NeoFSAlphabet), pubsAny(w.ir))
 
 	cmt := c.Cmt.ScriptHash()
@@ -318,7 +352,15 @@ func newWorld(t testing.TB, run *hx.Run, n int) *world {
 	for _, name := range repoContracts {
 		ct[name] = w.compile(name, cmt)
 	}
+	// deployments carry every FS-chain account a (possibly broken) tree may ask for: Balance and Container subscribe to
+	// new epochs in _deploy (Alphabet witness); a tree that builds the Alphabet account from the wrong key list must
+	// still deploy, so that the cells - not the set-up - report it
 	both := []neotest.Signer{c.Alpha}
+	for _, a := range []string{"V", "VA", "VC"} {
+		if s := w.short[a]; s != nil {
+			both = append(both, s)
+		}
+	}
 	w.deploy("nns", "nns", ct["nns"], c.Cmt, nil, []any{[]any{[]any{"neofs", "ops@nspcc.io"}, []any{"org", "ops@nspcc.io"}}})
 	if c.NNSHash() != w.h["nns"] {
 		t.Fatal("NNS must have id 1")
@@ -565,7 +607,8 @@ func (w *world) ensureGAS(h util.Uint160, min int64) {
 
 func (w *world) ensureNEO(h util.Uint160, min int64) {
 	if w.neoOf(h) < min {
-		r := w.invoke([]neotest.Signer{w.c.Alpha}, w.c.NEO, "transfer", w.c.Alpha.ScriptHash(), h, 100*min, nil)
+		src := w.c.ValidatorsSigner() // the genesis NEO sits on the block signers' account (== Alpha unless committee > validators)
+		r := w.invoke([]neotest.Signer{src}, w.c.NEO, "transfer", src.ScriptHash(), h, 100*min, nil)
 		require.True(w.t, r.Halt, r.Fault)
 	}
 }
